@@ -30,6 +30,7 @@ LEAVES = [
     (r"^(Chain|MiniChain|Sector)::len\(|^Stream::current_position\(|^StreamBuffer::(cursor|filled_len)\(", BYTES),
     (r"^len\(param:buf\)$|^len\(var:(tmp|buf)\)$", BYTES),
     (r"(^|::)num_sectors\(|\.num_(fat|difat|dir|minifat)_sectors$", _mk(S=1)),
+    (r"^const:(\w+::)*MAX_REGULAR_SECTOR$", _mk(S=1)),
     (r"^len\((param:self\.|var:)(difat|difat_sector_ids)\)$", _mk(S=1)),
     (r"^len\((param:self\.|var:)(fat|minifat)\)$", _mk(C=1)),
     (r"^len\((param:self\.|var:)dir_entries\)$", _mk(D=1)),
